@@ -331,6 +331,11 @@ def run(case):
                     out.fired["stale-tail"] += 1
                 else:
                     n = (_resolve(ft[1], len(orig)) // 512) * 512
+                    if n < len(head):
+                        # the sector overlaps the comment header, which no MAC covers and the property does not
+                        # speak about (it names damage to the binary, cuts, appended bytes and the key)
+                        out.ev("fault", fkind, n, "header", "not-applicable")
+                        continue
                     sec = bytes(512) if ft[2] == "zero" else old[n:n + 512]
                     sec = (sec + bytes(512))[:min(512, len(orig) - n)]
                     damaged = orig[:n] + sec + orig[n + len(sec):]
